@@ -408,6 +408,10 @@ func (r *FnRun) execSimple(fr *Frame, st *State, in ssa.Instruction) {
 		m := r.fresh("chan", SInt)
 		r.assume(Eq(m, Add(st.top, IntLit(1))))
 		st.top = m
+		// a new channel is open
+		if g := r.e.cs.Ghosts["closed"]; g != nil {
+			r.assume(Not(Select(r.ghostTerm(st, g), m)))
+		}
 		fr.vals[x] = m
 	case *ssa.MakeClosure:
 		var bind []Val
@@ -541,7 +545,7 @@ func (r *FnRun) indexAddr(fr *Frame, st *State, x *ssa.IndexAddr) Val {
 			idx = c
 		}
 		r.oblige("BOUNDS", where, And(r.idxLe(r.idxLit(0), idx), r.idxLt(idx, s.Len)), st)
-		return PtrVal{Kind: pkElem, Base: s.Base, Idx: r.idxAdd(s.Off, idx), Root: "[]" + typeKey(xt.Elem()), Elem: xt.Elem()}
+		return PtrVal{Kind: pkElem, Base: s.Base, Idx: r.pos(s.Off, idx), Root: "[]" + typeKey(xt.Elem()), Elem: xt.Elem()}
 	case *types.Pointer:
 		arr := under(xt.Elem()).(*types.Array)
 		p := r.val(fr, st, x.X).(PtrVal)
@@ -605,7 +609,7 @@ func (r *FnRun) sliceOp(fr *Frame, st *State, x *ssa.Slice) Val {
 		hi := get(x.High, s.Len)
 		mx := get(x.Max, s.Cap)
 		r.oblige("BOUNDS", where, And(r.idxLe(r.idxLit(0), lo), r.idxLe(lo, hi), r.idxLe(hi, mx), r.idxLe(mx, s.Cap)), st)
-		return SliceVal{Base: s.Base, Off: r.idxAdd(s.Off, lo), Len: r.idxSub(hi, lo), Cap: r.idxSub(mx, lo), Elem: s.Elem}
+		return SliceVal{Base: s.Base, Off: r.shiftedOff(s.Off, lo), Len: r.idxSub(hi, lo), Cap: r.idxSub(mx, lo), Elem: s.Elem}
 	case *types.Basic: // string
 		s := r.val(fr, st, x.X).(Term)
 		n := r.strLen(s)
@@ -630,7 +634,7 @@ func (r *FnRun) sliceOp(fr *Frame, st *State, x *ssa.Slice) Val {
 		hi := get(x.High, n)
 		r.oblige("BOUNDS", where, And(r.idxLe(r.idxLit(0), lo), r.idxLe(lo, hi), r.idxLe(hi, n)), st)
 		if p.Kind == pkArr {
-			return SliceVal{Base: p.Base, Off: lo, Len: r.idxSub(hi, lo), Cap: r.idxSub(n, lo), Elem: arr.Elem()}
+			return SliceVal{Base: p.Base, Off: r.shiftedOff(r.idxLit(0), lo), Len: r.idxSub(hi, lo), Cap: r.idxSub(n, lo), Elem: arr.Elem()}
 		}
 		// materialise the array as a fresh backing store holding a copy
 		a := r.load(st, p, where).(Term)
